@@ -130,7 +130,8 @@ AccFails(sol) ==
   ELSE IF sol.acc \in {"inf", "-inf"} THEN {"Accuracy"}
   ELSE IF QClose(sol.acc, sminD, QMul(QPow2(-38), sminD)) THEN {} ELSE {"Accuracy"}
 
-Sn0 == [before |-> 0, enditers |-> 0, stops |-> 0, new |-> <<>>, stopsol |-> <<>>, last |-> <<>>, lost |-> "none"]
+Sn0 == [before |-> 0, enditers |-> 0, stops |-> 0, new |-> <<>>, stopsol |-> <<>>, last |-> <<>>, lost |-> "none", lastref |-> FALSE]
+(* lastref: the solution left by the last call was a refined one (an observation must then be judged as refined, too) *)
 (* sn.lost - what the code does after a contained failure (a deliberate deviation, modelled rather than idealised): the    *)
 (* interval popped for the failed evaluation is NOT put back into the queue, so it cannot be chosen until the next full    *)
 (* recalculation (the next change of M or of the best value) refills the queue.  lost = coordinate of that interval's right end, "none",  *)
@@ -278,7 +279,7 @@ Guarded(e) == "guard" \in DOMAIN e /\ e.guard
 AtResolution == \E k \in 2..Len(spts) : QLeq(QSub(spts[k].x, spts[k - 1].x), QPow2(0 - 40))
 
 EvRet(e) ==
-  LET refined == ((e.name = "solve" /\ scfg.refine) \/ e.name = "localref") /\ strials > 0
+  LET refined == ((e.name = "solve" /\ scfg.refine) \/ e.name = "localref" \/ (e.name = "observe" /\ sn.lastref)) /\ strials > 0
       g == Guarded(e)
       solveok == e.name = "solve" /\ ~sfault /\ ~g
       f == SnapAll(e.snap)
@@ -292,9 +293,11 @@ EvRet(e) ==
            \cup (IF solveok /\ e.printed_exc THEN {"NoIntExc"} ELSE {})
            \cup (IF e.name = "solve" /\ e.raised = "none" /\ ~e.ret_is_results THEN {"SolveReturnsResults"} ELSE {})
            \cup (IF g THEN {} ELSE NotifRetFails(e)) \cup CertFails(e)
+           \* an observation (GetResults only, possibly after other solvers acted) shows exactly what the last call left
+           \cup (IF e.name = "observe" /\ sn.last # <<>> /\ e.sol # sn.last THEN {"ObservedUnchanged"} ELSE {})
   IN /\ Note(e, f)
      /\ spc' = "idle"
-     /\ sn' = [sn EXCEPT !.last = e.sol, !.lost = IF Guarded(e) THEN "unknown" ELSE @]
+     /\ sn' = [sn EXCEPT !.last = e.sol, !.lost = IF Guarded(e) THEN "unknown" ELSE @, !.lastref = refined]
      /\ tstats' = [tstats EXCEPT !.cert = @ + (IF e.name = "solve" /\ ~sfault /\ HasLip /\ AccStop /\ Premise THEN 1 ELSE 0),
                                  !.accstops = @ + (IF e.name = "solve" /\ ~sfault /\ HasLip /\ AccStop THEN 1 ELSE 0)]
      /\ UNCHANGED <<scfg, spts, sM, sZ, sminD, strials, scall0, sfault, slocal>>
